@@ -14,6 +14,7 @@ Contracts (the top-level clauses are the sentences of the property):
              prescribed amplitudes enter as  -ck * K_uk[:, k]
 """
 import sys
+import itertools
 from fractions import Fraction
 
 from ..core import run_check
@@ -142,12 +143,98 @@ def load_asymmetry(led):
                 led.fail(cl, RB, {'Nxxtop': [str(v) for v in nx], 'moment': str(moment), 'expected': str(M), 'difference': bad, 'non-zero harmonics': others}, signature='MLA:' + how)
 
 
+def static_wrapper(led):
+    """ConeCyl.static: hands the analysis over to Analysis.static with the caller's NLgeom and returns its states; it leaves the
+    definition of the shell and of its loads alone (what calc_fext / calc_k0 will read is what the caller defined)"""
+    import numpy as np
+    func = PC.CC + 'static'
+    led.function(func)
+    DEF = ['Nxxtop', 'Fc', 'P', 'T', 'P_inc', 'T_inc', 'MLA', 'xiLA', 'uTM', 'thetaTdeg', 'betadeg', 'pdC', 'pdT', 'pdLA', 'r1', 'r2', 'H', 'L', 'alphadeg',
+           'stack', 'plyt', 'plyts', 'laminaprop', 'laminaprops', 'forces', 'forces_inc', 'c0', 'm0', 'n0', 'model', 'm1', 'm2', 'n2', 'nx', 'nt', 'F_reuse',
+           'kuBot', 'kuTop', 'kvBot', 'kvTop', 'kwBot', 'kwTop', 'kphixBot', 'kphixTop', 'kphitBot', 'kphitTop']
+
+    def snap(v):
+        if isinstance(v, np.ndarray):
+            return ('arr', tuple(snap(x) for x in v.reshape(-1)))
+        if isinstance(v, (list, tuple)):
+            return tuple(snap(x) for x in v)
+        if isinstance(v, P):
+            return normal(v).text()
+        return repr(v)
+    for NL, load in itertools.product((False, True), ('Nxxtop', 'Fc')):
+        it = PC.mk()
+        seen = {}
+
+        def c_static(itp, a, kw):
+            an = a[0]
+            seen.setdefault('calls', []).append(dict(kw))
+            seen['def'] = {k: snap(seen['cc'].attrs.get(k)) for k in DEF}
+            an.attrs['cs'] = ['the states of the analysis']
+            an.attrs['increments'] = ['the load factors of the analysis']
+            return an.attrs['increments'], an.attrs['cs']
+        it.contracts['compmech.analysis.analysis.Analysis.static'] = c_static
+        loadkw = dict(Nxxtop=np.array([real('Nxx%d' % i) for i in range(5)], dtype=object)) if load == 'Nxxtop' else dict(Fc=real('Fc'))
+
+        def run():
+            seen.clear()
+            cc = PC.new_cc(it, alphadeg=real('alphadeg'), r2=real('r2'), L=real('L'), n2=2, stack=[real('th0')], plyt=real('plyt'), laminaprop=(real('E1'),),
+                           P=real('P'), T=real('T'), thetaTdeg=real('thetaTdeg'), pdC=False, **loadkw)
+            it.call(it.getattr(cc, 'add_force'), [real('xf'), real('tf'), real('fx'), real('ft'), real('fz')], {})
+            seen['cc'] = cc
+            before = {k: snap(cc.attrs.get(k)) for k in DEF}
+            r = it.call(it.getattr(cc, 'static'), [], dict(NLgeom=NL, silent=True))
+            return cc, before, r
+        for path, out in it.explore(run):
+            name = '%s[NLgeom=%s,axial load given by %s]' % (func, NL, load)
+            if out[0] != 'return':
+                led.fail(name + '/no-exception', func, {'raises': out[1].tname, 'args': [str(a)[:100] for a in out[1].eargs]}, signature='raise:' + out[1].tname)
+                continue
+            cc, before, r = out[1]
+            probs = []
+            calls_ = seen.get('calls', [])
+            if len(calls_) != 1:
+                probs.append('Analysis.static called %d times' % len(calls_))
+            elif calls_[0].get('NLgeom') is not NL:
+                probs.append('Analysis.static called with NLgeom=%r' % (calls_[0].get('NLgeom'),))
+            changed = [k for k in DEF if seen.get('def', {}).get(k) != before[k]]
+            if changed:
+                probs.append('definition attributes changed before the analysis runs: %s' % ', '.join('%s: %s -> %s' % (k, str(before[k])[:60], str(seen['def'][k])[:60]) for k in changed))
+            if r != ['the states of the analysis'] or cc.attrs.get('cs') != ['the states of the analysis'] or cc.attrs.get('increments') != ['the load factors of the analysis']:
+                probs.append('the states / load factors of the analysis are not what is returned and stored')
+            if probs:
+                led.fail(name, func, {'differences': probs}, signature='static-wrapper:' + ';'.join(probs)[:100], replay=replay_static_nxxtop() if any('Nxxtop' in p_ for p_ in probs) else None)
+            else:
+                led.ok(name, func)
+
+
+def replay_static_nxxtop():
+    from .. import pyreplay, shell_oracle as O
+    script = O.COMMON + '''
+cc = make(payload); cc.pdC = False; cc.Fc = None
+cc.Nxxtop = np.array([-35., 0., 0., 0., 0.])
+cc.add_force(0.5*cc.L if cc.L else 100., 0.3, 0., 0., 1.)
+cc._rebuild()
+want = np.asarray(cc.calc_fext(silent=True)).ravel().copy()
+nxx_before = np.array(cc.Nxxtop, dtype=float).copy()
+cs = cc.static(silent=True)
+k0uu = cc.k0uu if cc.k0uu is not None else None
+res = np.asarray(cc.k0uu.dot(cs[0])).ravel() - want
+out = {'Nxxtop_before': nxx_before.tolist(), 'Nxxtop_after': np.array(cc.Nxxtop, dtype=float).tolist(),
+       'residual_K_uu_c_minus_fext_of_the_defined_loads': float(abs(res).max()/max(abs(want).max(), 1e-300))}
+'''
+    pay = dict(m1=3, m2=2, n2=2, r2=250., H=500., alphadeg=20., model='clpt_donnell_bc1', laminaprop=[123.55e3, 8.708e3, 0.319, 5.695e3, 5.695e3, 5.695e3], stack=[30, -30, 45], plyt=0.125)
+    r = pyreplay.run_real(script, pay, timeout=600)
+    return {'reproduced': bool(r.get('raised') or (r.get('residual_K_uu_c_minus_fext_of_the_defined_loads') or 0) > 1e-8 or r.get('Nxxtop_before') != r.get('Nxxtop_after')),
+            'input': pay, 'result': r, 'real_function': 'ConeCyl.static'}
+
+
 def body(led):
     led.assume("preconditions of ConeCyl._rebuild: the given lengths and radii are positive, 0 <= alphadeg < 90, r1 > r2 when both radii are "
                "given; pdLA is left at True (anything else raises NotImplementedError)")
     geometry(led)
     axial_load(led)
     load_asymmetry(led)
+    static_wrapper(led)
     from . import c18_fext, c18_partition
     c18_fext.check(led)
     from . import c18_fext_any
